@@ -17,3 +17,15 @@ git -C /repo apply "$D/patch.diff" || { echo "PATCH DOES NOT APPLY TO /repo"; ex
 cd /verif && ./check "$P" > /tmp/evalseed_check.log 2>&1; RC=$?
 git -C /repo checkout -- .
 echo "check $P rc=$RC"; grep -E "^VIOLATION|^UNDECIDED|^ERROR" /tmp/evalseed_check.log | cut -c1-200 | head -8
+SLUG=$(basename "$D"); OUT=/verif/seeded/$P-$SLUG; mkdir -p "$OUT"; cp "$D/patch.diff" "$D/demo.py" "$OUT/"
+python3 - "$D/meta.json" "$OUT/meta.json" "$P" "$W0" "$W1" "$BL" "$RC" <<'PY'
+import json,sys,re
+src,dst,P,w0,w1,bl,rc=sys.argv[1:8]
+m=json.load(open(src))
+log=open('/tmp/evalseed_check.log').read()
+viol=sorted(set(re.findall(r"replay=/verif/replay/[A-Z0-9]+/(\S+?)\.json", log)))
+m.update({"breaks_property":P,"confirmed":{"demo_without_patch_rc":int(w0),"demo_with_patch_rc":int(w1),"stable_baseline_with_patch":bl},
+ "ran":"tools/eval_seed.sh: scratch worktree (demo with/without, full test suite vs 881 stable tests); then git apply on /repo, ./check %s --tier quick, git checkout -- ."%P,
+ "check_exit_code":int(rc),"detected":int(rc)==1,"obligations_or_ids_that_fired":viol[:25]})
+json.dump(m,open(dst,'w'),indent=1)
+PY
